@@ -388,6 +388,8 @@ def gen_grids(rng):
         T = np.unique(T)
         if len(T) < 2:
             T = np.array([T[0], T[0] + 100.0])
+        if rng.random() < 0.5:
+            T = T.astype(np.int64)                       # a temperature axis built with np.arange(...): integer dtype
     lo = rng.uniform(-3, 2)
     lp = np.sort(np.linspace(lo, lo + rng.uniform(2, 9), nP) + rng.uniform(-0.3, 0.3, nP))
     for k in range(1, nP):
